@@ -20,6 +20,8 @@ Span(c, line) ==
     ELSE IF line = c.ref_line THEN {<<line, ch>> : ch \in 0..5}            \* "[r](2)"
     ELSE IF line = c.item_line THEN {<<line, ch>> : ch \in 5..10}          \* "- it [i](2)"
     ELSE IF line = c.j_line THEN {<<line, ch>> : ch \in 7..12}             \* "  more [j](2)"
+    ELSE IF line = c.k_line THEN {<<line, ch>> : ch \in 4..c.maxch}       \* "- k [wra": the link runs to the end of the line
+    ELSE IF line = c.k2_line THEN {<<line, ch>> : ch \in 2..9}            \* "  pped](2)"
     ELSE IF line = c.quote_line THEN {<<line, ch>> : ch \in 2..7}          \* "> [q](2)"
     ELSE IF line = c.wiki_line THEN {<<line, ch>> : ch \in (2..6) \cup (10..16)}   \* "w [[2]] x [[2|s]] y"
     ELSE IF line = c.cell_line THEN {<<line, ch>> : ch \in 6..11}          \* "| c | [c](2) |"
@@ -28,6 +30,9 @@ Span(c, line) ==
     ELSE {}
 Window(c) == UNION {{<<line, ch>> : ch \in 0..c.maxch} : line \in 0..(c.last_line + 1)}
 Expected(c) == (UNION {Span(c, line) : line \in 0..(c.last_line + 1)}) \cap Window(c)
+\* not judged: the indentation of the continuation line of the wrapped link (the link's span is kept as one
+\* start..end pair, so these two columns count as inside it) and the columns past the end of its first line
+DontCare(c) == {<<c.k2_line, 0>>, <<c.k2_line, 1>>} \cup {<<c.k_line, ch>> : ch \in 8..c.maxch}
 
 \* (with nothing before or after it the link under test is itself a block reference)
 RefBlockLines(c) == IF c.prefix = <<>> /\ c.suffix = <<>> /\ c.wrap = "none" THEN <<c.link_line, c.ref_line, c.quote_line>> ELSE <<c.ref_line, c.quote_line>>
@@ -37,23 +42,28 @@ Fired(s) == {<<p[1], p[2]>> : p \in Range(s)}
 Reasons(e) ==
     LET c == e.case
         exp == Expected(c)
-    IN  {<<"definition-outside-link", p>> : p \in Fired(e.def) \ exp}
-        \cup {<<"definition-missed-inside-link", p>> : p \in exp \ Fired(e.def)}
-        \cup {<<"prepare-rename-outside-link", p>> : p \in {<<q[1], q[2]>> : q \in Range(e.prep)} \ exp}
-        \cup {<<"prepare-rename-missed", p>> : p \in exp \ {<<q[1], q[2]>> : q \in Range(e.prep)}}
-        \cup {<<"rename-outside-link", p>> : p \in Fired(e.ren) \ exp}
-        \cup {<<"rename-missed", p>> : p \in exp \ Fired(e.ren)}
+        dc == DontCare(c)
+    IN  {<<"definition-outside-link", p>> : p \in (Fired(e.def) \ exp) \ dc}
+        \cup {<<"definition-missed-inside-link", p>> : p \in (exp \ Fired(e.def)) \ dc}
+        \cup {<<"prepare-rename-outside-link", p>> : p \in ({<<q[1], q[2]>> : q \in Range(e.prep)} \ exp) \ dc}
+        \cup {<<"prepare-rename-missed", p>> : p \in (exp \ {<<q[1], q[2]>> : q \in Range(e.prep)}) \ dc}
+        \cup {<<"rename-outside-link", p>> : p \in (Fired(e.ren) \ exp) \ dc}
+        \cup {<<"rename-missed", p>> : p \in (exp \ Fired(e.ren)) \ dc}
         \* the range returned for the link under test is the url inside its parentheses
         \cup {<<"rename-range-wrong", q>> :
                  q \in {r \in Range(e.prep) : r[1] = c.link_line /\ (r[3] # c.link_line \/ r[4] # c.url_start \/ r[5] # c.link_line \/ r[6] # c.url_end)}}
         \* locations name the line where the block really is
-        \cup (IF e.ref_lines # <<c.block_line, c.ref_line, c.item_line, c.quote_line, c.wiki_line, c.table_line, c.z_line>> THEN {<<"reference-lines", e.ref_lines>>} ELSE {})
+        \cup (IF e.ref_lines # <<c.block_line, c.ref_line, c.item_line, c.k_line, c.quote_line, c.wiki_line, c.table_line, c.z_line>> THEN {<<"reference-lines", e.ref_lines>>} ELSE {})
         \cup (IF e.hint_lines # RefBlockLines(c) THEN {<<"hint-lines", e.hint_lines>>} ELSE {})
         \cup (IF e.sym_lines # <<c.head_line>> THEN {<<"symbol-lines", e.sym_lines>>} ELSE {})
         \* code actions offered at a line operate on the block that covers that line
-        \cup (IF e.list_lines # <<c.item_line, c.j_line>> THEN {<<"list-action-lines", e.list_lines>>} ELSE {})
+        \cup (IF e.list_lines # <<c.item_line, c.j_line, c.k_line, c.k2_line>> THEN {<<"list-action-lines", e.list_lines>>} ELSE {})
         \cup (IF e.inline_lines # RefBlockLines(c) THEN {<<"inline-action-lines", e.inline_lines>>} ELSE {})
         \cup (IF e.section_lines # <<c.head_line>> THEN {<<"section-action-lines", e.section_lines>>} ELSE {})
+        \* ... also when the editor (Helix, cursor resting on the line) sends the range from that line to the start of the next
+        \cup (IF "helix_list_lines" \in DOMAIN e /\ e.helix_list_lines # <<c.item_line, c.j_line, c.k_line, c.k2_line>> THEN {<<"helix-list-action-lines", e.helix_list_lines>>} ELSE {})
+        \cup (IF "helix_inline_lines" \in DOMAIN e /\ e.helix_inline_lines # RefBlockLines(c) THEN {<<"helix-inline-action-lines", e.helix_inline_lines>>} ELSE {})
+        \cup (IF "helix_section_lines" \in DOMAIN e /\ e.helix_section_lines # <<c.head_line>> THEN {<<"helix-section-action-lines", e.helix_section_lines>>} ELSE {})
         \cup (IF e.errors # 0 THEN {<<"requests-failed", e.errors>>} ELSE {})
 
 Step == /\ l <= Len(Rec) /\ l' = l + 1
